@@ -195,6 +195,10 @@ def h_window(e, cfg):
     I0 = e.sym((B, *shape), torch.float32, "I0", lo=-imax, hi=imax)
     s0 = e.read(n(I0, refrac_lock=lock))
     v0 = e.read(n.voltage)
+    anys = False
+    for v in s0.reshape(-1):
+        anys = T.bor(anys, T.tob(v))
+    e.witness("window:a-neuron-spikes-at-step-0", anys)      # everything below is conditional on that spike
     hp_reset = None if cls == "GLIF2" else K(hp["reset_v"])
     if hp_reset is not None:
         for pos in np.ndindex(*s0.shape):
